@@ -85,6 +85,7 @@ func run(repo, hooks, out string) error {
 	publishHooked := false
 	var siteList []string
 	var unredirected []string
+	nyields := 0
 	for _, p := range pkgs {
 		if len(p.Errors) > 0 {
 			return fmt.Errorf("package %s: %v", p.PkgPath, p.Errors[0])
@@ -143,6 +144,78 @@ func run(repo, hooks, out string) error {
 						// a file operation the simulated disk does not model: refuse to build
 						// rather than let package app reach the real file system unnoticed
 						unredirected = append(unredirected, fmt.Sprintf("%s: os.%s", p.Fset.Position(se.Pos()), se.Sel.Name))
+					}
+					return true
+				})
+			}
+			// 2c. yield points in front of every statement that calls into package sync (mutexes,
+			// sync.Map, Once, WaitGroup) in the HTTP API packages: concurrent requests interleave
+			// there under the simulator's scheduler
+			if strings.HasSuffix(p.PkgPath, "/keyper/kproapi") || strings.HasSuffix(p.PkgPath, "/keyper/kprapi") {
+				usesSync := func(n ast.Node) bool {
+					found := false
+					ast.Inspect(n, func(x ast.Node) bool {
+						if _, isFn := x.(*ast.FuncLit); isFn {
+							return false
+						}
+						call, ok := x.(*ast.CallExpr)
+						if !ok {
+							return true
+						}
+						sel, ok := call.Fun.(*ast.SelectorExpr)
+						if !ok {
+							return true
+						}
+						if obj := p.TypesInfo.ObjectOf(sel.Sel); obj != nil && obj.Pkg() != nil && obj.Pkg().Path() == "sync" {
+							found = true
+						}
+						return true
+					})
+					return found
+				}
+				var instrument func(list []ast.Stmt) []ast.Stmt
+				instrument = func(list []ast.Stmt) []ast.Stmt {
+					var out []ast.Stmt
+					for _, st := range list {
+						hit := false
+						switch x := st.(type) {
+						case *ast.ExprStmt:
+							hit = usesSync(x.X)
+						case *ast.AssignStmt:
+							for _, e := range x.Rhs {
+								hit = hit || usesSync(e)
+							}
+						case *ast.ReturnStmt:
+							for _, e := range x.Results {
+								hit = hit || usesSync(e)
+							}
+						case *ast.IfStmt:
+							if x.Init != nil {
+								hit = usesSync(x.Init)
+							}
+							hit = hit || usesSync(x.Cond)
+						}
+						if hit {
+							pos := p.Fset.Position(st.Pos())
+							out = append(out, &ast.ExprStmt{X: &ast.CallExpr{
+								Fun:  &ast.SelectorExpr{X: ast.NewIdent("verifhook"), Sel: ast.NewIdent("YieldPoint")},
+								Args: []ast.Expr{&ast.BasicLit{Kind: token.STRING, Value: fmt.Sprintf("%q", fmt.Sprintf("%s:%d", rel, pos.Line))}},
+							}})
+							changed = true
+							nyields++
+						}
+						out = append(out, st)
+					}
+					return out
+				}
+				ast.Inspect(f, func(n ast.Node) bool {
+					switch x := n.(type) {
+					case *ast.BlockStmt:
+						x.List = instrument(x.List)
+					case *ast.CaseClause:
+						x.Body = instrument(x.Body)
+					case *ast.CommClause:
+						x.Body = instrument(x.Body)
 					}
 					return true
 				})
